@@ -464,10 +464,14 @@ def run(ctx, shard):
         ctx.workload('realistic')
         for it in range(200 if ctx.tier == 'quick' else 2000):
             n = int(rng.integers(1, 9))
-            flag = [None, True, False][it % 3]
-            ctx.set_case({'op': 'rand_pauli', 'n': n, 'flag': flag, 'seed': it})
+            # the flag in every form the function's own validation (`is_hermitian in {None,True,False}`) accepts
+            flag = [None, True, False, np.True_, np.False_, 1, 0][it % 7]
+            ctx.set_case({'op': 'rand_pauli', 'n': n, 'flag': repr(flag), 'seed': it})
             with ctx.guard('rand_pauli'):
-                r = numqi.random.rand_pauli(n, is_hermitian=flag, seed=int(rng.integers(2**31)))
+                if it % 2:
+                    r = numqi.random.rand_pauli(n, is_hermitian=flag, seed=int(rng.integers(2**31)))
+                else:
+                    r = numqi.random.rand_pauli(n, flag, int(rng.integers(2**31)))  # positional, documented order (n, is_hermitian, seed)
                 ctx.case('rand_pauli', r.F2, flag)
                 # associativity on library-produced operands
                 a = numqi.random.rand_pauli(n, seed=int(rng.integers(2**31)))
